@@ -78,14 +78,23 @@ func (h evHeap) Swap(i, j int)       { h[i], h[j] = h[j], h[i] }
 func (h *evHeap) Push(x any)         { *h = append(*h, x.(desEv)) }
 func (h *evHeap) Pop() any           { o := *h; x := o[len(o)-1]; *h = o[:len(o)-1]; return x }
 
-// shortestRoundTimeout asks the real timer implementation for the durations of rounds 1..k.
+// shortestRoundTimeout asks the real timer implementation for the shortest time a round can last
+// (rounds 1..k). The relative timers (inc, linear) give each round its own duration from the moment
+// it starts. The eager timer has absolute deadlines anchored to the duty start, so the time a round
+// has before its (first) deadline is the gap between consecutive deadlines, not deadline minus
+// "now" — using the latter overstated the window (1.5 s instead of 1 s for proposer duties) and let
+// the harness generate latencies the statement's precondition excludes.
 func shortestRoundTimeout(kind string, duty core.Duty, k int) time.Duration {
 	s := New(Config{N: 4, Honest: []int64{0}, TimerKind: kind, Duty: duty})
 	p := s.Procs[0]
 	min := time.Duration(1<<62 - 1)
+	prev := time.Duration(0)
 	for r := int64(1); r <= int64(k); r++ {
 		p.rt.Timer(r)
 		d := p.timer.deadline - s.now
+		if kind == "eager" {
+			d, prev = p.timer.deadline-prev, p.timer.deadline
+		}
 		if d < min {
 			min = d
 		}
